@@ -1,6 +1,9 @@
 (* C17  Mailboxes and typed headers read back equal to what was stored.  Statements only.
    The grammar model (chumsky 0.9 combinators of parsers/rfc2822.rs) and Display are in
    Model/Mailbox.v; the header map in Model/Headers.v. *)
+From Coq Require Import ZArith.
+From Coq Require Import Strings.String.
+From LV Require Import Base.Str Model.Date Proofs.DateProofs.
 From LV Require Import Base.Bytes Base.Utf8 Base.Res Model.Address Model.Mailbox Model.HeaderEnc Model.Headers
   Proofs.MailboxProofs Proofs.MailboxListProofs Proofs.MailboxNamedListProofs Proofs.HeadersProofs.
 
@@ -92,6 +95,27 @@ Proof.
   repeat constructor; cbn; try discriminate; try reflexivity.
 Qed.
 
+(* Date: for EVERY instant from 1970-01-01 00:00:00 to 9999-12-31 23:59:59 (all 253 402 300 800 seconds; outside
+   that range the conversion panics - finding F37) the value lettre writes - httpdate's civil-from-days conversion and
+   fixed-width rendering, with GMT rewritten to the numeric zone +0000 - is read back by Date::parse (the +0000 -> GMT
+   rewriting, httpdate's ASCII / trim / IMF-fixdate parser and its validity check, which recomputes the weekday) as
+   the same value, and that value converts back to the same second. *)
+Theorem C17_date_roundtrip : forall s : Z, (0 <= s < 253402300800)%Z ->
+  exists d, of_secs s = Some d /\ date_parse (date_display d) = Some d /\ to_secs d = s.
+Proof. exact date_roundtrip. Qed.
+Theorem C17_date_fields : forall s : Z, (0 <= s < 253402300800)%Z ->
+  exists d, of_secs s = Some d /\ to_secs d = s /\ fields_ok d.
+Proof. exact of_secs_back. Qed.
+Example C17_date_example :
+  option_map date_display (of_secs 1700000000) = Some (bs "Tue, 14 Nov 2023 22:13:20 +0000") /\
+  option_map to_secs (date_parse (bs "Tue, 29 Feb 2000 00:00:00 +0000")) = Some 951782400%Z /\
+  date_parse (bs "Wed, 29 Feb 2000 00:00:00 +0000") = None /\          (* wrong weekday *)
+  date_parse (bs "Thu, 29 Feb 2001 00:00:00 +0000") = None /\          (* no such day *)
+  option_map to_secs (date_parse (bs "Sunday, 06-Nov-94 08:49:37 GMT")) = Some 784111777%Z /\
+  option_map to_secs (date_parse (bs "Sun Nov  6 08:49:37 1994")) = Some 784111777%Z /\
+  of_secs 253402300800 = None.
+Proof. vm_compute. repeat split. Qed.
+
 Print Assumptions C17_mailbox_rt_noname.
 Print Assumptions C17_mailbox_rt_plain.
 Print Assumptions C17_mailbox_rt_quoted.
@@ -102,3 +126,5 @@ Print Assumptions C17_get_after_remove.
 Print Assumptions C17_names_unique.
 Print Assumptions C17_mailboxes_rt_named.
 Print Assumptions C17_trim_ends.
+Print Assumptions C17_date_roundtrip.
+Print Assumptions C17_date_fields.
